@@ -518,7 +518,8 @@ class categorical_ndarray(np.ndarray):
 
     def _update_categories_and_codes(self):
         if hasattr(self, '_categories'):
-            self._codes = index_lookup(self, self._categories)
+            # index_lookup only deals with 1-d arrays
+            self._codes = index_lookup(np.asarray(self).ravel(), self._categories).reshape(self.shape)
         else:
             self._categories, self._codes = unique(self)
             self._categories.setflags(write=False)
